@@ -468,7 +468,8 @@ def run(prop: str, tier: str) -> int:
         spaces = e1.QUICK_SPACES
         if prop == "C11":
             spaces = [(1, e1.A7, None), (2, e1.A7, None), (3, e1.A7, None), (4, e1.A5, None),
-                      (5, e1.alphabet(G.C, G.CRAD), None), (5, e1.A2, None), (6, e1.A1, None)]
+                      (5, e1.alphabet(G.C, G.CRAD), None), (5, e1.A2, None), (6, e1.A1, None),
+                      (3, e1.alphabet(G.O, G.NO256, G.LR, G.MD256, G.NO), None), (4, e1.alphabet(G.O, G.NO256, G.NO), None)]
     shards = e1.space_shards(spaces)
     for shard, res in pmap(run_roots_shard, [(prop, sh, tier) for sh in shards]):
         rep.add(states=res["states"], transitions=res["transitions"], traces_validated_against_impl=res["exec"],
